@@ -831,7 +831,11 @@ fn run_case<B: BufKind>(c: &Case, rep: &mut Report) {
         ("delim", "a12") => run_with_framer::<AnyDelimited<'static>, B>(c, &|| AnyDelimited::new(&[1, 2]), rep),
         ("delim", "a11") => run_with_framer::<AnyDelimited<'static>, B>(c, &|| AnyDelimited::new(&[1, 1]), rep),
         ("noop", _) => run_with_framer::<NoopFramer, B>(c, &NoopFramer::new, rep),
-        ("lim", _) => run_with_framer::<LimFramer, B>(c, &|| LimFramer::new(LIM_LIMIT), rep),
+        ("lim", _) => {
+            assert_eq!(c.v["limit"].as_u64(), Some(LIM_LIMIT), "harness: model LimLimit differs");
+            assert!(c.lfl == 2 && c.be, "harness: the lim framer is 2 bytes big endian");
+            run_with_framer::<LimFramer, B>(c, &|| LimFramer::new(LIM_LIMIT), rep)
+        }
         (k, dk) => panic!("unknown framer {k} {dk}"),
     }
 }
